@@ -1,4 +1,4 @@
-(* C13 -- combine_mesh: offsets, ranges, nothing lost when names are distinct; members lost when names clash *)
+(* C13 -- combine_mesh (repaired, 157ff14): offsets, ranges, and no member is lost whatever the names *)
 From Coq Require Import List Arith ZArith Bool Lia.
 From OV.base Require Import Num.
 From OV.model Require Import M_C13_Struct M_C13_Combine.
@@ -28,26 +28,155 @@ Proof.
   - rewrite map_app. cbn [map fst]. rewrite <- app_assoc. cbn [app]. exact H.
 Qed.
 
-(* with pairwise distinct names the result is the first dict followed by the shifted second dict *)
-Lemma combine_dicts_distinct {V} (g : V -> V) (s1 s2 : dict V) : NoDup (map fst s1 ++ map fst s2) ->
-  combine_dicts g s1 s2 = s1 ++ map (fun kv => (fst kv, g (snd kv))) s2.
+Lemma first_loop {V} (s1 : dict V) : NoDup (map fst s1) -> fold_left (fun d kv => dset d (fst kv) (snd kv)) s1 [] = s1.
 Proof.
-  intros H. unfold combine_dicts.
-  rewrite (fold_dset_fresh (fun kv => snd kv) s1 []) by (cbn [map app]; now apply nodup_app_l in H).
-  cbn [app]. replace (map (fun kv : Z * V => (fst kv, snd kv)) s1) with s1.
-  - now rewrite (fold_dset_fresh (fun kv => g (snd kv)) s2 s1 H).
-  - rewrite <- (map_id s1) at 1. apply map_ext. now intros [].
+  intros H. rewrite (fold_dset_fresh (fun kv => snd kv) s1 []) by exact H. cbn [app].
+  rewrite <- (map_id s1) at 2. apply map_ext. now intros [].
 Qed.
 
-Lemma members_app {A} (d1 d2 : dict (list A)) : members (d1 ++ d2) = members d1 + members d2.
-Proof. unfold members. now rewrite map_app, list_sum_app. Qed.
-
-Lemma combine_blocks_members s1 s2 off : NoDup (map fst s1 ++ map fst s2) ->
-  members (combine_blocks s1 s2 off) = members s1 + members s2.
+(* ---- dupd *)
+Lemma dget_dupd_same {V} (d : dict V) k upd fresh :
+  dget (dupd d k upd fresh) k = Some (match dget d k with Some old => upd old | None => fresh end).
 Proof.
-  intros H. unfold combine_blocks. rewrite combine_dicts_distinct by exact H. rewrite members_app. f_equal.
-  unfold members. rewrite map_map. f_equal. apply map_ext. intros [k v]. cbn [snd]. unfold shift. now rewrite map_length.
+  induction d as [| [k' v'] d IH]; cbn [dupd dget]; [now rewrite Z.eqb_refl |].
+  destruct (Z.eqb_spec k k') as [-> | Hn]; cbn [dget]; [now rewrite Z.eqb_refl |].
+  destruct (Z.eqb_spec k k'); [contradiction | exact IH].
 Qed.
+Lemma dget_dupd_other {V} (d : dict V) k k' upd fresh : k' <> k -> dget (dupd d k upd fresh) k' = dget d k'.
+Proof.
+  intros Hn. induction d as [| [k0 v0] d IH]; cbn [dupd dget].
+  - destruct (Z.eqb_spec k' k); [contradiction | reflexivity].
+  - destruct (Z.eqb_spec k k0) as [-> | Hk]; cbn [dget].
+    + destruct (Z.eqb_spec k' k0); [contradiction | reflexivity].
+    + destruct (Z.eqb_spec k' k0); [reflexivity | exact IH].
+Qed.
+Lemma dupd_fresh {V} (d : dict V) k upd fresh : ~ In k (map fst d) -> dupd d k upd fresh = d ++ [(k, fresh)].
+Proof.
+  induction d as [| [k' v'] d IH]; intros H; [reflexivity |]. cbn [dupd]. cbn [map fst In] in H.
+  destruct (Z.eqb_spec k k') as [-> | _]; [tauto |]. rewrite IH by tauto. reflexivity.
+Qed.
+Lemma members_dupd {A} (d : dict (list A)) k upd fresh n :
+  length fresh = n -> (forall old, length (upd old) = length old + n) -> members (dupd d k upd fresh) = members d + n.
+Proof.
+  intros Hf Hu. unfold members. induction d as [| [k' v'] d IH]; cbn [dupd map list_sum fold_right snd]; [lia |].
+  destruct (Z.eqb k k'); cbn [map list_sum fold_right snd].
+  - rewrite Hu. fold (list_sum (map (fun kv : Z * list A => length (snd kv)) d)). lia.
+  - fold (list_sum (map (fun kv : Z * list A => length (snd kv)) (dupd d k upd fresh))).
+    fold (list_sum (map (fun kv : Z * list A => length (snd kv)) d)). lia.
+Qed.
+Lemma Forall_dupd {A} (P : list A -> Prop) (d : dict (list A)) k upd fresh :
+  Forall (fun kv => P (snd kv)) d -> P fresh -> (forall old, P old -> P (upd old)) -> Forall (fun kv => P (snd kv)) (dupd d k upd fresh).
+Proof.
+  intros H Hf Hu. induction H as [| [k' v'] d Hx Hd IH]; cbn [dupd]; [repeat constructor; exact Hf |].
+  destruct (Z.eqb k k'); constructor; auto.
+Qed.
+Lemma dget_in {V} (d : dict V) k v : NoDup (map fst d) -> In (k, v) d -> dget d k = Some v.
+Proof.
+  induction d as [| [k' v'] d IH]; intros Hn Hin; [destruct Hin |]. cbn [map fst] in Hn. inversion Hn as [| ? ? Hnin Hn']; subst.
+  cbn [dget]. destruct Hin as [E | Hin].
+  - inversion E; subst. now rewrite Z.eqb_refl.
+  - destruct (Z.eqb_spec k k') as [-> | _]; [| now apply IH]. exfalso. apply Hnin. apply in_map_iff. now exists (k', v).
+Qed.
+
+(* ---- the second loop, for any merge function that behaves as concatenation *)
+Section Loop.
+  Context {A : Type} (mrg : list A -> list A -> list A) (g : list A -> list A).
+  Hypothesis mrg_app : forall old val, mrg old val = old ++ val.
+  Let step := fun (d : dict (list A)) (kv : Z * list A) => dupd d (fst kv) (fun old => mrg old (g (snd kv))) (g (snd kv)).
+
+  Lemma loop_keeps : forall s2 d k v, dget d k = Some v ->
+    exists v', dget (fold_left step s2 d) k = Some v' /\ forall x, In x v -> In x v'.
+  Proof.
+    induction s2 as [| [k2 v2] s2 IH]; intros d k v H; cbn [fold_left]; [exists v; auto |].
+    destruct (Z.eq_dec k k2) as [-> | Hn].
+    - destruct (IH (step d (k2, v2)) k2 (v ++ g v2)) as [v' [E Hsub]].
+      { unfold step. cbn [fst snd]. rewrite dget_dupd_same, H, mrg_app. reflexivity. }
+      exists v'. split; [exact E |]. intros x Hx. apply Hsub. apply in_or_app. now left.
+    - apply IH. unfold step. cbn [fst snd]. now rewrite dget_dupd_other.
+  Qed.
+
+  Lemma loop_adds : forall s2 d k v, In (k, v) s2 ->
+    exists v', dget (fold_left step s2 d) k = Some v' /\ forall x, In x (g v) -> In x v'.
+  Proof.
+    induction s2 as [| [k2 v2] s2 IH]; intros d k v Hin; [destruct Hin |]. cbn [fold_left]. destruct Hin as [E | Hin].
+    - inversion E; subst. set (now := match dget d k with Some old => old ++ g v | None => g v end).
+      destruct (loop_keeps s2 (step d (k, v)) k now) as [v' [E' Hsub]].
+      { unfold step, now. cbn [fst snd]. rewrite dget_dupd_same. destruct (dget d k); [now rewrite mrg_app | reflexivity]. }
+      exists v'. split; [exact E' |]. intros x Hx. apply Hsub. unfold now. destruct (dget d k); [apply in_or_app; now right | exact Hx].
+    - now apply IH.
+  Qed.
+
+  Lemma loop_members : (forall v, length (g v) = length v) ->
+    forall s2 d, members (fold_left step s2 d) = members d + members s2.
+  Proof.
+    intros Hg. induction s2 as [| [k2 v2] s2 IH]; intros d; cbn [fold_left]; [unfold members at 3; cbn; lia |].
+    rewrite IH. unfold step. cbn [fst snd]. rewrite (members_dupd d k2 _ _ (length v2)).
+    - unfold members at 4. cbn [map list_sum fold_right snd]. fold (members s2). lia.
+    - apply Hg.
+    - intros old. now rewrite mrg_app, app_length, Hg.
+  Qed.
+
+  Lemma loop_Forall (P : A -> Prop) : (forall v, Forall P v -> Forall P (g v)) = (forall v, Forall P v -> Forall P (g v)) ->
+    forall (Q : A -> Prop), (forall v, Forall Q v -> Forall P (g v)) ->
+    forall s2 d, Forall (fun kv => Forall P (snd kv)) d -> Forall (fun kv => Forall Q (snd kv)) s2 ->
+    Forall (fun kv => Forall P (snd kv)) (fold_left step s2 d).
+  Proof.
+    intros _ Q Hg. induction s2 as [| [k2 v2] s2 IH]; intros d Hd Hs; cbn [fold_left]; [exact Hd |].
+    inversion Hs as [| ? ? Hv Hs']; subst. cbn [snd] in Hv. apply IH; [| exact Hs'].
+    unfold step. cbn [fst snd]. apply Forall_dupd; [exact Hd | now apply Hg |].
+    intros old Ho. rewrite mrg_app. apply Forall_app. split; [exact Ho | now apply Hg].
+  Qed.
+
+  (* distinct names: the exact shape *)
+  Lemma loop_fresh : forall s2 d, NoDup (map fst d ++ map fst s2) ->
+    fold_left step s2 d = d ++ map (fun kv => (fst kv, g (snd kv))) s2.
+  Proof.
+    induction s2 as [| [k v] s2 IH]; intros d H; cbn [fold_left map]; [now rewrite app_nil_r |].
+    cbn [map fst] in H. assert (Hk : ~ In k (map fst d)).
+    { apply NoDup_remove_2 in H. intros Hin. apply H. apply in_or_app. now left. }
+    unfold step at 2. cbn [fst snd]. rewrite dupd_fresh by exact Hk. rewrite IH.
+    - rewrite <- app_assoc. reflexivity.
+    - rewrite map_app. cbn [map fst]. rewrite <- app_assoc. cbn [app]. exact H.
+  Qed.
+End Loop.
+
+Lemma merge_cat_app {A} (old val : list A) : merge_cat old val = old ++ val.
+Proof. reflexivity. Qed.
+Lemma merge_sides_app {A} (old val : list A) : merge_sides old val = old ++ val.
+Proof. destruct old, val; cbn [merge_sides app]; try reflexivity. now rewrite app_nil_r. Qed.
+
+(* NO member is lost, whatever the names: every member of a first-mesh set and every (shifted) member of a second-mesh set
+   is found under its name in the merged dict, and the total number of members is the sum *)
+Lemma combine_dicts_no_loss {A} (mrg : list A -> list A -> list A) (g : list A -> list A) (s1 s2 : dict (list A)) :
+  (forall old val, mrg old val = old ++ val) -> NoDup (map fst s1) ->
+  (forall k v, In (k, v) s1 -> exists v', dget (combine_dicts mrg g s1 s2) k = Some v' /\ forall x, In x v -> In x v')
+  /\ (forall k v, In (k, v) s2 -> exists v', dget (combine_dicts mrg g s1 s2) k = Some v' /\ forall x, In x (g v) -> In x v')
+  /\ ((forall v, length (g v) = length v) -> members (combine_dicts mrg g s1 s2) = members s1 + members s2).
+Proof.
+  intros Hm Hn. unfold combine_dicts. rewrite (first_loop s1 Hn). split; [| split].
+  - intros k v Hin. apply (loop_keeps mrg g Hm). now apply dget_in.
+  - intros k v Hin. now apply (loop_adds mrg g Hm).
+  - intros Hg. now apply (loop_members mrg g Hm).
+Qed.
+
+Lemma combine_dicts_distinct {A} (mrg : list A -> list A -> list A) (g : list A -> list A) (s1 s2 : dict (list A)) :
+  NoDup (map fst s1 ++ map fst s2) -> combine_dicts mrg g s1 s2 = s1 ++ map (fun kv => (fst kv, g (snd kv))) s2.
+Proof.
+  intros H. unfold combine_dicts. rewrite (first_loop s1) by (now apply nodup_app_l in H). now apply loop_fresh.
+Qed.
+
+Lemma combine_dicts_Forall {A} (mrg : list A -> list A -> list A) (g : list A -> list A) (P Q : A -> Prop) (s1 s2 : dict (list A)) :
+  (forall old val, mrg old val = old ++ val) -> NoDup (map fst s1) -> (forall v, Forall Q v -> Forall P (g v)) ->
+  Forall (fun kv => Forall P (snd kv)) s1 -> Forall (fun kv => Forall Q (snd kv)) s2 ->
+  Forall (fun kv => Forall P (snd kv)) (combine_dicts mrg g s1 s2).
+Proof.
+  intros Hm Hn Hg H1 H2. unfold combine_dicts. rewrite (first_loop s1 Hn). now apply (loop_Forall mrg g Hm P eq_refl Q).
+Qed.
+
+Lemma shift_length off v : length (shift off v) = length v.
+Proof. apply map_length. Qed.
+Lemma shift_sides_length off v : length (shift_sides off v) = length v.
+Proof. apply map_length. Qed.
 
 Section Mesh.
   Context {T : Type}.
@@ -104,52 +233,68 @@ Section Mesh.
     now replace (n1 + i - n1) with i by lia; replace (n1 + j - n1) with j by lia; replace (n1 + k - n1) with k by lia.
   Qed.
 
-  (* sets: distinct names => first mesh's sets unchanged, second mesh's sets shifted by the element / node counts *)
-  Lemma combine_blocks_form : NoDup (map fst (cm_blocks m1) ++ map fst (cm_blocks m2)) ->
-    cm_blocks (combine_mesh m1 m2)
-    = cm_blocks m1 ++ map (fun kv => (fst kv, map (Nat.add (length (cm_conns m1))) (snd kv))) (cm_blocks m2).
-  Proof. intros H. unfold combine_mesh. cbn [cm_blocks]. unfold combine_blocks. now rewrite combine_dicts_distinct. Qed.
+  (* sets, ANY names: nothing is lost, members stay in range *)
+  Lemma combine_blocks_no_loss : NoDup (map fst (cm_blocks m1)) ->
+    (forall k v, In (k, v) (cm_blocks m1) -> exists v', dget (cm_blocks (combine_mesh m1 m2)) k = Some v' /\ forall e, In e v -> In e v')
+    /\ (forall k v, In (k, v) (cm_blocks m2) ->
+          exists v', dget (cm_blocks (combine_mesh m1 m2)) k = Some v' /\ forall e, In e v -> In (length (cm_conns m1) + e) v')
+    /\ members (cm_blocks (combine_mesh m1 m2)) = members (cm_blocks m1) + members (cm_blocks m2).
+  Proof.
+    intros Hn. unfold combine_mesh. cbn [cm_blocks]. unfold combine_blocks.
+    destruct (combine_dicts_no_loss merge_cat (shift (length (cm_conns m1))) (cm_blocks m1) (cm_blocks m2) merge_cat_app Hn) as (H1 & H2 & H3).
+    split; [exact H1 |]. split; [| apply H3, shift_length].
+    intros k v Hin. destruct (H2 k v Hin) as [v' [E Hs]]. exists v'. split; [exact E |]. intros e He. apply Hs. unfold shift. now apply in_map.
+  Qed.
 
-  Lemma combine_blocks_in_range : NoDup (map fst (cm_blocks m1) ++ map fst (cm_blocks m2)) ->
+  Lemma combine_blocks_in_range : NoDup (map fst (cm_blocks m1)) ->
     Forall (fun kv => Forall (fun e => e < length (cm_conns m1)) (snd kv)) (cm_blocks m1) ->
     Forall (fun kv => Forall (fun e => e < length (cm_conns m2)) (snd kv)) (cm_blocks m2) ->
     Forall (fun kv => Forall (fun e => e < length (cm_conns (combine_mesh m1 m2))) (snd kv)) (cm_blocks (combine_mesh m1 m2)).
   Proof.
-    intros H H1 H2. rewrite combine_blocks_form by exact H. destruct combine_counts as [_ ->]. apply Forall_app. split.
+    intros Hn H1 H2. destruct combine_counts as [_ ->]. unfold combine_mesh. cbn [cm_blocks]. unfold combine_blocks.
+    apply (combine_dicts_Forall merge_cat _ _ (fun e => e < length (cm_conns m2)) _ _ merge_cat_app Hn); [| | exact H2].
+    - intros v Hv. unfold shift. apply Forall_forall. intros e He. apply in_map_iff in He. destruct He as [e' [<- He']].
+      rewrite Forall_forall in Hv. specialize (Hv _ He'). lia.
     - eapply Forall_impl; [| exact H1]. intros kv Hkv. eapply Forall_impl; [| exact Hkv]. cbn beta. intros; lia.
-    - apply Forall_forall. intros kv Hkv. apply in_map_iff in Hkv. destruct Hkv as [kv' [<- Hin]]. cbn [snd].
-      rewrite Forall_forall in H2. specialize (H2 _ Hin). apply Forall_forall. intros e He.
-      apply in_map_iff in He. destruct He as [e' [<- He']]. rewrite Forall_forall in H2. specialize (H2 _ He'). lia.
   Qed.
 
-  Lemma combine_nodesets_form d1 d2 : cm_nodesets m1 = Some d1 -> cm_nodesets m2 = Some d2 ->
-    NoDup (map fst d1 ++ map fst d2) ->
-    cm_nodesets (combine_mesh m1 m2) = Some (d1 ++ map (fun kv => (fst kv, map (Nat.add n1) (snd kv))) d2).
+  Lemma combine_nodesets_no_loss d1 d2 : cm_nodesets m1 = Some d1 -> cm_nodesets m2 = Some d2 -> NoDup (map fst d1) ->
+    exists d, cm_nodesets (combine_mesh m1 m2) = Some d
+    /\ (forall k v, In (k, v) d1 -> exists v', dget d k = Some v' /\ forall x, In x v -> In x v')
+    /\ (forall k v, In (k, v) d2 -> exists v', dget d k = Some v' /\ forall x, In x v -> In (n1 + x) v')
+    /\ members d = members d1 + members d2.
   Proof.
-    intros E1 E2 H. unfold combine_mesh. cbn [cm_nodesets]. rewrite E1, E2. unfold combine_nodesets.
-    now rewrite combine_dicts_distinct.
+    intros E1 E2 Hn. unfold combine_mesh. cbn [cm_nodesets]. rewrite E1, E2. unfold combine_nodesets. eexists. split; [reflexivity |].
+    destruct (combine_dicts_no_loss merge_cat (shift n1) d1 d2 merge_cat_app Hn) as (H1 & H2 & H3). fold n1.
+    split; [exact H1 |]. split; [| apply H3, shift_length].
+    intros k v Hin. destruct (H2 k v Hin) as [v' [E Hs]]. exists v'. split; [exact E |]. intros x Hx. apply Hs. unfold shift. now apply in_map.
   Qed.
-  Lemma combine_sidesets_form d1 d2 : cm_sidesets m1 = Some d1 -> cm_sidesets m2 = Some d2 ->
-    NoDup (map fst d1 ++ map fst d2) ->
-    cm_sidesets (combine_mesh m1 m2)
-    = Some (d1 ++ map (fun kv => (fst kv, map (fun es => (length (cm_conns m1) + fst es, snd es)) (snd kv))) d2).
+
+  Lemma combine_sidesets_no_loss d1 d2 : cm_sidesets m1 = Some d1 -> cm_sidesets m2 = Some d2 -> NoDup (map fst d1) ->
+    exists d, cm_sidesets (combine_mesh m1 m2) = Some d
+    /\ (forall k v, In (k, v) d1 -> exists v', dget d k = Some v' /\ forall x, In x v -> In x v')
+    /\ (forall k v, In (k, v) d2 -> exists v', dget d k = Some v' /\ forall es, In es v -> In (length (cm_conns m1) + fst es, snd es) v')
+    /\ members d = members d1 + members d2.
   Proof.
-    intros E1 E2 H. unfold combine_mesh. cbn [cm_sidesets]. rewrite E1, E2. unfold combine_sidesets.
-    now rewrite combine_dicts_distinct.
+    intros E1 E2 Hn. unfold combine_mesh. cbn [cm_sidesets]. rewrite E1, E2. unfold combine_sidesets. eexists. split; [reflexivity |].
+    destruct (combine_dicts_no_loss merge_sides (shift_sides (length (cm_conns m1))) d1 d2 merge_sides_app Hn) as (H1 & H2 & H3).
+    split; [exact H1 |]. split; [| apply H3, shift_sides_length].
+    intros k v Hin. destruct (H2 k v Hin) as [v' [E Hs]]. exists v'. split; [exact E |]. intros es Hes. apply Hs.
+    unfold shift_sides. apply in_map_iff. now exists es.
   Qed.
+
+  (* distinct names: exact shape *)
+  Lemma combine_blocks_form : NoDup (map fst (cm_blocks m1) ++ map fst (cm_blocks m2)) ->
+    cm_blocks (combine_mesh m1 m2)
+    = cm_blocks m1 ++ map (fun kv => (fst kv, map (Nat.add (length (cm_conns m1))) (snd kv))) (cm_blocks m2).
+  Proof. intros H. unfold combine_mesh. cbn [cm_blocks]. unfold combine_blocks. now rewrite combine_dicts_distinct. Qed.
 End Mesh.
 
-(* F8: equal block names -- the later entry overwrites the earlier: two 3x3 structured meshes (8 elements each, both
-   with the single block 'block_0' = id 0): the merged mesh has 16 elements but block_0 lists only the second mesh's 8 *)
+(* formerly F8 (fixed by 157ff14): equal block names -- two 3x3 structured meshes (8 elements each, both with the single
+   block 'block_0' = id 0): the merged block lists all 16 elements *)
 Definition smesh (Nx Ny : nat) : cmesh unit :=
   mkCMesh (struct_coords Nx Ny (fun _ => tt) (fun _ => tt)) (struct_conns Nx Ny) [(0%Z, struct_block0 Nx Ny)] None None.
-Lemma combine_name_clash_witness :
+Lemma combine_name_clash_regression :
   let m := combine_mesh (smesh 3 3) (smesh 3 3) in
-  length (cm_conns m) = 16 /\ cm_blocks m = [(0%Z, [8; 9; 10; 11; 12; 13; 14; 15])]
-  /\ members (cm_blocks m) = 8 /\ members (cm_blocks (smesh 3 3)) + members (cm_blocks (smesh 3 3)) = 16
-  /\ ~ (forall e, e < 16 -> exists kv, In kv (cm_blocks m) /\ In e (snd kv)).
-Proof.
-  cbv zeta. repeat split; try (vm_compute; reflexivity).
-  intros H. destruct (H 0 ltac:(lia)) as [kv [Hkv He]]. vm_compute in Hkv. destruct Hkv as [<- | []].
-  cbn [snd In] in He. repeat (destruct He as [He | He]; [discriminate |]). exact He.
-Qed.
+  length (cm_conns m) = 16 /\ cm_blocks m = [(0%Z, seq 0 16)] /\ members (cm_blocks m) = 16.
+Proof. cbv zeta. repeat split; vm_compute; reflexivity. Qed.
